@@ -359,7 +359,8 @@ def step (st : St) (op impl : String) : St × StepOut :=
       let rejected := implHead == "skip" || (implW.startsWith "R0," && implW != "R0,nil")
       if !rejected then g := { g with written := g.written ++ p }
     | ["close"] =>
-      if implHead == "nil" && !g.shut then
+      -- Close() after CancelWrite returns an error but still marks the stream finished (finishedWriting)
+      if (implHead == "nil" || implHead == "closecanceled") && !g.shut then
         g := { g with closed := true, closeBeforeCancel := g.closeBeforeCancel || !g.reset }
     | ["cancel", _] => g := { g with reset := true }
     | ["stop", _] => g := { g with reset := true }
